@@ -140,6 +140,23 @@ def judge(ctx, case):
     interesting = bool(case.get("big")) or any("(" in a or a in ("f", "g", "h", "u") for tt in d["terms"] + [e for g in d["groups"] for e in g["effects"]] for a in tt) or bool(d["groups"])
     ctx.count(core.canon(case), interesting and not identity and frames.nrows(spec) >= 3, ["transform:" + t["kind"] + (":" + t["index"] if "index" in t else ""),
               "response:" + d["response"].split("[")[0].split("(")[0]] + (["missing_values"] if holes else []), sample={"formula": formula, "transform": t if not case.get("huge") else "permute", "frame": sample_frame}, stratum="transform:" + t["kind"])
+    # an orthogonal polynomial of degree d on fewer than d + 2 distinct values (tied data, rows lost to missing values) is
+    # degenerate: its last columns are round-off divided by round-off, in any row order
+    import re as _re
+
+    complete = frame.dropna(subset=[c for c in frame.columns if c in used]) if holes else frame
+    for var, deg, rest in _re.findall(r"poly\((\w+), (\d+)([^)]*)\)", formula):
+        if var not in complete.columns:
+            continue
+        if complete[var].nunique() < int(deg) + 2:
+            ctx.classes["unjudged:polynomial_degree_close_to_distinct_values"] += 1
+            return
+        v_ = complete[var].to_numpy(dtype=float)
+        if "raw" not in rest and int(deg) >= 2 and v_.std() > 0 and abs(v_.mean()) / v_.std() > 1e3:
+            # the three-term recurrence on data far from zero loses (|mean| / sd) ** degree of its digits: what a permuted
+            # sum changes in the last bit becomes visible.  That is conditioning, not a dependence on row order.
+            ctx.classes["unjudged:ill_conditioned_orthogonal_polynomial"] += 1
+            return
     try:
         with core.Guard():
             a = design_summary(design_matrices(formula, frame, extra_namespace=ns, **nakw))
